@@ -153,20 +153,33 @@ theorem tx_supply_nonincreasing {env : Env (List Addr)} (hE : EvmOk env) (hT : T
     total r.world.bal ≤ total w.bal ∧ total (finWorld r.world).bal ≤ total w.bal :=
   tx_supply_nonincreasing_of_supplyEvm hE (traceEvm_supplyEvm hT) h
 
-/-- … and conserves it exactly when the EVM never self-destructs (and nothing was marked before). -/
-theorem tx_supply_exact {env : Env (List Addr)} (hE : EvmOk env) (hT : TraceEvmNoSuicide env) {m : Msg} {gp : Nat} {w : SWorld} {r : TxOk (List Addr)}
-    (h : transitionDb env m gp w = .ok r) (hw : w.rest = []) :
+/-- an EVM that conserves Σ exactly and leaves no suicide marks when started without marks. -/
+def ExactEvm (env : Env (List Addr)) : Prop :=
+  ∀ m g w, w.rest = [] → total (env.run m g w).world.bal = total w.bal ∧ (env.run m g w).world.rest = []
+
+theorem traceEvmNoSuicide_exactEvm {env : Env (List Addr)} (hT : TraceEvmNoSuicide env) : ExactEvm env := by
+  intro m g w hw
+  obtain ⟨ops, hno, hb, hr⟩ := hT m g w
+  obtain ⟨e1, e2, _⟩ := prim_trace_exact_without_selfdestruct (toS w) (by simp only [toS]; exact hw) ops hno
+  exact ⟨by rw [hb]; exact e1, by rw [hr]; exact e2⟩
+
+theorem tx_supply_exact_of_exactEvm {env : Env (List Addr)} (hE : EvmOk env) (hX : ExactEvm env) {m : Msg} {gp : Nat} {w : SWorld}
+    {r : TxOk (List Addr)} (h : transitionDb env m gp w = .ok r) (hw : w.rest = []) :
     total (finWorld r.world).bal = total w.bal ∧ (finWorld r.world).rest = [] := by
   obtain ⟨ig, _, h1, h2, hrest⟩ := tx_conserves hE h
-  obtain ⟨ops, hno, hb, hr⟩ := hT m (m.gas - ig) (preWorld m w)
-  have hs : (toS (preWorld m w)).suicided = [] := by simp only [toS]; rw [preWorld_rest]; exact hw
-  obtain ⟨e1, e2, _⟩ := prim_trace_exact_without_selfdestruct (toS (preWorld m w)) hs ops hno
-  have h4 : total (evmOut env m w ig).world.bal = total (preWorld m w).bal := by unfold evmOut; rw [hb]; exact e1
-  have h5 : r.world.rest = [] := by rw [hrest]; unfold evmOut; rw [hr]; exact e2
+  obtain ⟨h4, h5'⟩ := hX m (m.gas - ig) (preWorld m w) (by rw [preWorld_rest]; exact hw)
+  have h4' : total (evmOut env m w ig).world.bal = total (preWorld m w).bal := h4
+  have h5 : r.world.rest = [] := by rw [hrest]; exact h5'
   refine ⟨?_, rfl⟩
   simp only [finWorld]
   rw [finalise_nil _ (by simp only [toS]; exact h5)]
   simp only [toS]; omega
+
+/-- … and conserves it exactly when the EVM never self-destructs (and nothing was marked before). -/
+theorem tx_supply_exact {env : Env (List Addr)} (hE : EvmOk env) (hT : TraceEvmNoSuicide env) {m : Msg} {gp : Nat} {w : SWorld} {r : TxOk (List Addr)}
+    (h : transitionDb env m gp w = .ok r) (hw : w.rest = []) :
+    total (finWorld r.world).bal = total w.bal ∧ (finWorld r.world).rest = [] :=
+  tx_supply_exact_of_exactEvm hE (traceEvmNoSuicide_exactEvm hT) h hw
 
 /-! ## rewards and hard fork 4 -/
 
@@ -229,6 +242,23 @@ theorem hf4_only_lowers (dealloc : List Addr) (w : SWorld) :
 
 example : total (applyHF4 [1, 3] { bal := [(1, 5), (2, 7)], nonce := [], rest := [] }).bal = 7 := by decide
 
+/-- **hf5_is_noop.** `misc.ApplyHardFork5` as written (it calls the getter `StateDB.Empty` on every listed account) leaves the
+    state — every balance, nonce and mark — exactly as it was. A change that makes it "remove the presale accounts" (as its
+    doc comment says) breaks this obligation, the call-site inventory (`sites_eq_alphabet`) and the block sums of the harness. -/
+theorem hf5_is_noop (dealloc : List Addr) (w : SWorld) : applyHF5 dealloc w = w := by
+  induction dealloc generalizing w with
+  | nil => rfl
+  | cons a as ih => simp only [applyHF5]; exact ih w
+
+/-- the hard-fork edits are the HF4 zeroing only. -/
+theorem hardForkEdits_eq (c : BlockCtx) (w : SWorld) :
+    hardForkEdits c w = if c.hf4Height = some c.height then applyHF4 c.dealloc w else w := by
+  unfold hardForkEdits
+  simp only [hf5_is_noop]
+  split <;> rfl
+
+example : (applyHF5 [5, 6] { bal := [(5, 77), (6, 1)], nonce := [], rest := [] }).bal = [(5, 77), (6, 1)] := by decide
+
 /-! ## whole blocks -/
 
 theorem processTxs_supply_le {env : Env (List Addr)} (hE : EvmOk env) (hT : SupplyEvm env) (hfin : env.fin = finWorld)
@@ -252,7 +282,7 @@ theorem processTxs_supply_le {env : Env (List Addr)} (hE : EvmOk env) (hT : Supp
         rw [hw, hfin] at h2
         exact Nat.le_trans h2 h1
 
-theorem processTxs_supply_eq {env : Env (List Addr)} (hE : EvmOk env) (hT : TraceEvmNoSuicide env) (hfin : env.fin = finWorld)
+theorem processTxs_supply_eq {env : Env (List Addr)} (hE : EvmOk env) (hT : ExactEvm env) (hfin : env.fin = finWorld)
     (ms : List Msg) (gp : Nat) (w : SWorld) (used : Nat) (hw0 : w.rest = []) {b : BlockOk (List Addr)}
     (h : processTxs env ms gp w used = .ok b) : total b.world.bal = total w.bal := by
   induction ms generalizing gp w used b with
@@ -268,7 +298,7 @@ theorem processTxs_supply_eq {env : Env (List Addr)} (hE : EvmOk env) (hT : Trac
       | ok b' =>
         rw [hb] at h; cases h
         obtain ⟨r, hr, _, _, _, _, _, _, _, hw⟩ := C06.receipt_fields ha
-        obtain ⟨h1, h1r⟩ := tx_supply_exact hE hT hr hw0
+        obtain ⟨h1, h1r⟩ := tx_supply_exact_of_exactEvm hE hT hr hw0
         have h2 := ih a.gp a.world a.usedGas (by rw [hw, hfin]; exact h1r) hb
         rw [hw, hfin] at h2
         exact h2.trans h1
@@ -279,6 +309,7 @@ theorem block_supply_bound_of_supplyEvm {env : Env (List Addr)} (hE : EvmOk env)
     (c : BlockCtx) (txs : List Msg) (w : SWorld) {b : BlockOk (List Addr)} (h : processBlock env c txs w = .ok b) :
     total b.world.bal ≤ total w.bal + issuance c.height c.uncles := by
   unfold processBlock process at h
+  simp only [hardForkEdits_eq] at h
   cases hg : addGas 0 c.gasLimit with
   | none => rw [hg] at h; cases h
   | some gp =>
@@ -301,14 +332,13 @@ theorem block_supply_bound {env : Env (List Addr)} (hE : EvmOk env) (hT : TraceE
     total b.world.bal ≤ total w.bal + issuance c.height c.uncles :=
   block_supply_bound_of_supplyEvm hE (traceEvm_supplyEvm hT) hfin c txs w h
 
-/-- **block_supply_exact_without_selfdestruct.** If no contract self-destructs in the block, Σ grows by exactly the issuance
-    (relative to the state after the one-time HF4 zeroing, when the block is the HF4 block). -/
-theorem block_supply_exact_without_selfdestruct {env : Env (List Addr)} (hE : EvmOk env) (hT : TraceEvmNoSuicide env) (hfin : env.fin = finWorld)
+theorem block_supply_exact_of_exactEvm {env : Env (List Addr)} (hE : EvmOk env) (hT : ExactEvm env) (hfin : env.fin = finWorld)
     (c : BlockCtx) (txs : List Msg) (w : SWorld) (hw0 : w.rest = []) {b : BlockOk (List Addr)} (h : processBlock env c txs w = .ok b) :
     total b.world.bal =
       total (if c.hf4Height = some c.height then applyHF4 c.dealloc w else w).bal + issuance c.height c.uncles ∧
     (c.hf4Height ≠ some c.height → total b.world.bal = total w.bal + issuance c.height c.uncles) := by
   unfold processBlock process at h
+  simp only [hardForkEdits_eq] at h
   cases hg : addGas 0 c.gasLimit with
   | none => rw [hg] at h; cases h
   | some gp =>
@@ -328,6 +358,15 @@ theorem block_supply_exact_without_selfdestruct {env : Env (List Addr)} (hE : Ev
       rw [if_neg hne] at h1
       omega
 
+/-- **block_supply_exact_without_selfdestruct.** If no contract self-destructs in the block, Σ grows by exactly the issuance
+    (relative to the state after the one-time HF4 zeroing, when the block is the HF4 block; HF5 changes nothing). -/
+theorem block_supply_exact_without_selfdestruct {env : Env (List Addr)} (hE : EvmOk env) (hT : TraceEvmNoSuicide env) (hfin : env.fin = finWorld)
+    (c : BlockCtx) (txs : List Msg) (w : SWorld) (hw0 : w.rest = []) {b : BlockOk (List Addr)} (h : processBlock env c txs w = .ok b) :
+    total b.world.bal =
+      total (if c.hf4Height = some c.height then applyHF4 c.dealloc w else w).bal + issuance c.height c.uncles ∧
+    (c.hf4Height ≠ some c.height → total b.world.bal = total w.bal + issuance c.height c.uncles) :=
+  block_supply_exact_of_exactEvm hE (traceEvmNoSuicide_exactEvm hT) hfin c txs w hw0 h
+
 /-- **block_supply_bound_hf4.** At the HF4 block the bound tightens by what was zeroed: Σ' ≤ Σ(after zeroing) + issuance ≤ Σ + issuance. -/
 theorem block_supply_bound_hf4 {env : Env (List Addr)} (hE : EvmOk env) (hT : TraceEvm env) (hfin : env.fin = finWorld)
     (c : BlockCtx) (txs : List Msg) (w : SWorld) (hhf : c.hf4Height = some c.height) {b : BlockOk (List Addr)} (h : processBlock env c txs w = .ok b) :
@@ -335,6 +374,7 @@ theorem block_supply_bound_hf4 {env : Env (List Addr)} (hE : EvmOk env) (hT : Tr
     total (applyHF4 c.dealloc w).bal ≤ total w.bal := by
   refine ⟨?_, (hf4_only_lowers c.dealloc w).1⟩
   unfold processBlock process at h
+  simp only [hardForkEdits_eq] at h
   cases hg : addGas 0 c.gasLimit with
   | none => rw [hg] at h; cases h
   | some gp =>
@@ -487,6 +527,58 @@ theorem block_supply_bound_over_vm (venv : Vm.Env) (hE : Vm.EnvOK venv) (orc : T
     total b.world.bal ≤ total w.bal + issuance c.height c.uncles :=
   block_supply_bound_of_supplyEvm (TxVm.vmEnv_ok venv hE orc hO refund finWorld c.coinbase) (vmEnv_supplyEvm venv orc hA refund c.coinbase) rfl c txs w h
 
+/-- … a word without the letter `suicide` (and the effect reports the marks of the word's final state). -/
+def AlphabetEffectNoSuicide (f : SWorld → SWorld) : Prop :=
+  ∀ w, ∃ ops : List Op, (∀ op ∈ ops, op.isSuicide = false) ∧
+    (f w).bal = (runOps { cur := toS w, snaps := [] } ops).cur.bal ∧ (f w).rest = (runOps { cur := toS w, snaps := [] } ops).cur.suicided
+
+def AlphabetOracleNoSuicide (o : Nat → Vm.StepIn SWorld) : Prop :=
+  ∀ t, AlphabetEffectNoSuicide (o t).eff ∧ AlphabetEffectNoSuicide (o t).gasEff ∧ AlphabetEffectNoSuicide (o t).neutralEff ∧
+    AlphabetEffectNoSuicide (o t).xferEff ∧ AlphabetEffectNoSuicide (o t).nonceEff ∧ AlphabetEffectNoSuicide (o t).setCodeEff
+
+theorem alphabetEffectNoSuicide_conserves {f : SWorld → SWorld} (hf : AlphabetEffectNoSuicide f) (B : Nat) (w : SWorld)
+    (hw : total w.bal = B ∧ w.rest = []) : total (f w).bal = B ∧ (f w).rest = [] := by
+  obtain ⟨ops, hno, hb, hr⟩ := hf w
+  obtain ⟨e1, e2, _⟩ := prim_trace_exact_without_selfdestruct (toS w) (by simp only [toS]; exact hw.2) ops hno
+  exact ⟨by rw [hb, e1]; exact hw.1, by rw [hr]; exact e2⟩
+
+/-- **vm_run_supply_exact_without_selfdestruct.** If no effect word contains `suicide`, any run of the C07 machine keeps
+    "Σ = B and no marks" for the current world and every live snapshot; `evm.Call` / `evm.Create` at depth 0 conserve Σ exactly. -/
+theorem vm_run_supply_exact_without_selfdestruct (venv : Vm.Env) (o : Nat → Vm.StepIn SWorld) (hA : AlphabetOracleNoSuicide o) (B : Nat) :
+    (∀ fuel fr db t, TxVm.DbInv (fun w : SWorld => total w.bal = B ∧ w.rest = []) db →
+      TxVm.DbInv (fun w : SWorld => total w.bal = B ∧ w.rest = []) (Vm.run venv o fuel fr db t).db) ∧
+    (∀ fuel k gas v (w : SWorld), total w.bal = B → w.rest = [] →
+      total (Vm.topCall venv o fuel k gas v ⟨w, [], 0⟩).db.cur.bal = B ∧ (Vm.topCall venv o fuel k gas v ⟨w, [], 0⟩).db.cur.rest = []) ∧
+    (∀ fuel gas (w : SWorld), total w.bal = B → w.rest = [] →
+      total (Vm.topCreate venv o fuel gas ⟨w, [], 0⟩).db.cur.bal = B ∧ (Vm.topCreate venv o fuel gas ⟨w, [], 0⟩).db.cur.rest = []) := by
+  have hO : TxVm.EffOk (fun w : SWorld => total w.bal = B ∧ w.rest = []) o := by
+    intro t w hw
+    obtain ⟨a1, a2, a3, a4, a5, a6⟩ := hA t
+    exact ⟨alphabetEffectNoSuicide_conserves a1 B w hw, alphabetEffectNoSuicide_conserves a2 B w hw, alphabetEffectNoSuicide_conserves a3 B w hw,
+      alphabetEffectNoSuicide_conserves a4 B w hw, alphabetEffectNoSuicide_conserves a5 B w hw, alphabetEffectNoSuicide_conserves a6 B w hw⟩
+  refine ⟨fun fuel fr db t h => TxVm.run_inv venv hO fuel fr db t h, fun fuel k gas v w hw hr => ?_, fun fuel gas w hw hr => ?_⟩
+  · exact (TxVm.topCall_inv venv hO fuel k gas v (db := ⟨w, [], 0⟩) ⟨⟨hw, hr⟩, fun _ h => by cases h⟩).cur
+  · exact (TxVm.topCreate_inv venv hO fuel gas (db := ⟨w, [], 0⟩) ⟨⟨hw, hr⟩, fun _ h => by cases h⟩).cur
+
+theorem vmEnv_exactEvm (venv : Vm.Env) (orc : TxVm.Oracle (List Addr)) (hA : ∀ m g w, AlphabetOracleNoSuicide (orc m g w))
+    (refund : SWorld → Nat) (cb : Addr) : ExactEvm (TxVm.vmEnv venv orc refund finWorld cb) := by
+  intro m g w hw
+  show total (TxVm.machine venv orc m g w).db.cur.bal = total w.bal ∧ (TxVm.machine venv orc m g w).db.cur.rest = []
+  unfold TxVm.machine
+  cases m.to with
+  | none => exact (vm_run_supply_exact_without_selfdestruct venv _ (hA m g w) (total w.bal)).2.2 _ _ w rfl hw
+  | some t => exact (vm_run_supply_exact_without_selfdestruct venv _ (hA m g w) (total w.bal)).2.1 _ _ _ _ w rfl hw
+
+/-- **block_supply_exact_without_selfdestruct_over_vm.** Whole blocks over the modelled interpreter, no `EvmOk`/`TraceEvm`
+    hypothesis: if no effect word of any step contains the letter `suicide`, Σ' = Σ(after the HF4 zeroing, if any) + issuance. -/
+theorem block_supply_exact_without_selfdestruct_over_vm (venv : Vm.Env) (hE : Vm.EnvOK venv) (orc : TxVm.Oracle (List Addr)) (hO : TxVm.OracleOk orc)
+    (hA : ∀ m g w, AlphabetOracleNoSuicide (orc m g w)) (refund : SWorld → Nat) (c : BlockCtx) (txs : List Msg) (w : SWorld) (hw0 : w.rest = [])
+    {b : BlockOk (List Addr)} (h : processBlock (TxVm.vmEnv venv orc refund finWorld c.coinbase) c txs w = .ok b) :
+    total b.world.bal =
+      total (if c.hf4Height = some c.height then applyHF4 c.dealloc w else w).bal + issuance c.height c.uncles ∧
+    (c.hf4Height ≠ some c.height → total b.world.bal = total w.bal + issuance c.height c.uncles) :=
+  block_supply_exact_of_exactEvm (TxVm.vmEnv_ok venv hE orc hO refund finWorld c.coinbase) (vmEnv_exactEvm venv orc hA refund c.coinbase) rfl c txs w hw0 h
+
 /-- non-vacuity: an oracle for a callee that is `STOP`, whose call transfers the value to account 3 and whose other effects
     are empty words; under the spring rule set of C07. -/
 def stopOrc : TxVm.Oracle (List Addr) := fun m _ w _ =>
@@ -503,5 +595,98 @@ theorem stopOrc_alphabet (m : Msg) (g : Nat) (w : SWorld) : AlphabetOracle (stop
 
 example : (match transitionDb (TxVm.vmEnv Props.C07.envSpring stopOrc (fun _ => 0) finWorld 2) m0 100000 w0 with
     | .ok r => some (r.usedGas, r.failed, total r.world.bal, lookup r.world.bal 3) | .error _ => none) = some (21000, false, 1000127, 100) := by decide
+
+/-! ### the run's NET balance effect as ONE word -/
+
+/-- letters that act on the current state only (the machine's own revision stack does the snapshots and reverts). -/
+def _root_.Aqv.Supply.Op.isFlat : Op → Bool
+  | .snapshot => false
+  | .revert _ => false
+  | _ => true
+
+theorem runOps_append (M : Machine) (a b : List Op) : runOps M (a ++ b) = runOps (runOps M a) b := by
+  induction a generalizing M with
+  | nil => rfl
+  | cons op ops ih => simp only [List.cons_append, runOps]; exact ih _
+
+theorem step_flat_cur {M M' : Machine} {op : Op} (hf : op.isFlat = true) (h : M.cur = M'.cur) : (step M op).cur = (step M' op).cur := by
+  cases op with
+  | transfer a b v => simp only [step]; rw [h]
+  | suicide a b => simp only [step]; rw [h]
+  | createAccount a => simp only [step]; rw [h]
+  | snapshot => cases hf
+  | revert k => cases hf
+
+theorem runOps_flat_cur (ops : List Op) (hf : ∀ op ∈ ops, op.isFlat = true) {M M' : Machine} (h : M.cur = M'.cur) :
+    (runOps M ops).cur = (runOps M' ops).cur := by
+  induction ops generalizing M M' with
+  | nil => exact h
+  | cons op ops ih =>
+    simp only [runOps]
+    exact ih (fun o ho => hf o (List.mem_cons_of_mem _ ho)) (step_flat_cur (hf op List.mem_cons_self) h)
+
+/-- an effect that is a word of flat letters, on balances AND marks. -/
+def FlatEffect (f : SWorld → SWorld) : Prop :=
+  ∀ w, ∃ ops : List Op, (∀ op ∈ ops, op.isFlat = true) ∧ toS (f w) = (runOps { cur := toS w, snaps := [] } ops).cur
+
+def FlatOracle (o : Nat → Vm.StepIn SWorld) : Prop :=
+  ∀ t, FlatEffect (o t).eff ∧ FlatEffect (o t).gasEff ∧ FlatEffect (o t).neutralEff ∧ FlatEffect (o t).xferEff ∧
+    FlatEffect (o t).nonceEff ∧ FlatEffect (o t).setCodeEff
+
+/-- reachable from `s0` by one flat word. -/
+def WordFrom (s0 : SState) (w : SWorld) : Prop :=
+  ∃ ops : List Op, (∀ op ∈ ops, op.isFlat = true) ∧ toS w = (runOps { cur := s0, snaps := [] } ops).cur
+
+theorem flatEffect_wordFrom {f : SWorld → SWorld} (hf : FlatEffect f) (s0 : SState) (w : SWorld) (hw : WordFrom s0 w) : WordFrom s0 (f w) := by
+  obtain ⟨ops, h1, h2⟩ := hw
+  obtain ⟨ops', h1', h2'⟩ := hf w
+  refine ⟨ops ++ ops', fun op hop => ?_, ?_⟩
+  · rcases List.mem_append.mp hop with h | h
+    · exact h1 op h
+    · exact h1' op h
+  · rw [h2', runOps_append]
+    exact runOps_flat_cur ops' h1' (M := { cur := toS w, snaps := [] }) (M' := runOps { cur := s0, snaps := [] } ops) h2
+
+/-- **vm_run_is_word.** The NET effect of `evm.Call` / `evm.Create` of the C07 machine on balances and suicide marks — whatever
+    the program, however its frames nest, snapshot and revert — is ONE finite word over the alphabet applied to the entry
+    state (the machine's reverts only ever return to a world that was itself reached by such a word). -/
+theorem vm_run_is_word (venv : Vm.Env) (o : Nat → Vm.StepIn SWorld) (hF : FlatOracle o) (w : SWorld) :
+    (∀ fuel k gas v, WordFrom (toS w) (Vm.topCall venv o fuel k gas v ⟨w, [], 0⟩).db.cur) ∧
+    (∀ fuel gas, WordFrom (toS w) (Vm.topCreate venv o fuel gas ⟨w, [], 0⟩).db.cur) := by
+  have hO : TxVm.EffOk (WordFrom (toS w)) o := by
+    intro t w' hw'
+    obtain ⟨a1, a2, a3, a4, a5, a6⟩ := hF t
+    exact ⟨flatEffect_wordFrom a1 _ w' hw', flatEffect_wordFrom a2 _ w' hw', flatEffect_wordFrom a3 _ w' hw', flatEffect_wordFrom a4 _ w' hw',
+      flatEffect_wordFrom a5 _ w' hw', flatEffect_wordFrom a6 _ w' hw'⟩
+  have h0 : TxVm.DbInv (WordFrom (toS w)) (⟨w, [], 0⟩ : Vm.Db SWorld) := ⟨⟨[], fun _ h => (by cases h), rfl⟩, fun _ h => by cases h⟩
+  exact ⟨fun fuel k gas v => (TxVm.topCall_inv venv hO fuel k gas v h0).cur, fun fuel gas => (TxVm.topCreate_inv venv hO fuel gas h0).cur⟩
+
+/-- the word gives the bound back: a run that is one word cannot increase Σ (`prim_trace_nonincreasing` on the extracted word),
+    and conserves it when the word has no `suicide`. -/
+theorem wordFrom_supply {s0 : SState} {w : SWorld} (h : WordFrom s0 w) : total w.bal ≤ total s0.bal := by
+  obtain ⟨ops, _, h2⟩ := h
+  have : w.bal = (runOps { cur := s0, snaps := [] } ops).cur.bal := congrArg SState.bal h2
+  rw [this]; exact (prim_trace_nonincreasing s0 ops).1
+
+theorem stopOrc_flat (m : Msg) (g : Nat) (w : SWorld) : FlatOracle (stopOrc m g w) := by
+  intro t
+  refine ⟨fun w' => ⟨[], fun _ h => (by cases h), rfl⟩, fun w' => ⟨[], fun _ h => (by cases h), rfl⟩, fun w' => ⟨[], fun _ h => (by cases h), rfl⟩,
+    fun w' => ⟨[.transfer m.sender 3 m.value], fun op h => (by simp only [List.mem_singleton] at h; rw [h]; rfl), ?_⟩,
+    fun w' => ⟨[], fun _ h => (by cases h), rfl⟩, fun w' => ⟨[], fun _ h => (by cases h), rfl⟩⟩
+  simp only [stopOrc, toS, runOps, step, transfer]
+  by_cases hlt : lookup w'.bal m.sender < m.value <;> simp [hlt]
+
+theorem stopOrc_alphabet_nosuicide (m : Msg) (g : Nat) (w : SWorld) : AlphabetOracleNoSuicide (stopOrc m g w) := by
+  intro t
+  refine ⟨fun w' => ⟨[], fun _ h => (by cases h), rfl, rfl⟩, fun w' => ⟨[], fun _ h => (by cases h), rfl, rfl⟩, fun w' => ⟨[], fun _ h => (by cases h), rfl, rfl⟩,
+    fun w' => ⟨[.transfer m.sender 3 m.value], fun op h => (by simp only [List.mem_singleton] at h; rw [h]; rfl), rfl, ?_⟩,
+    fun w' => ⟨[], fun _ h => (by cases h), rfl, rfl⟩, fun w' => ⟨[], fun _ h => (by cases h), rfl, rfl⟩⟩
+  simp only [stopOrc, toS, runOps, step, transfer]
+  by_cases hlt : lookup w'.bal m.sender < m.value <;> simp [hlt]
+
+-- a block over the real machine, HF4 height, two uncles, no self-destruct: exact
+example : sumAfter (processBlock (TxVm.vmEnv Props.C07.envSpring stopOrc (fun _ => 0) finWorld 2) c0 [m0] w0) =
+    some (1000127 - 77 + (1000000000000000000 + 875000000000000000 + 250000000000000000 + 2 * 31250000000000000)) := by decide
+
 
 end Aqv.Props.C05
